@@ -468,14 +468,26 @@ func c16precreate(c *an.Ctx) {
 			CutEdge: func(e an.Edge, _ *an.PathState) bool {
 				// no lookupd configured: len(lookupdHTTPAddrs) > 0 is false
 				for _, cmp := range an.CmpsOnEdge(e) {
-					if cmp.If != nil && cmp.If.Block() == e.From {
-						if a := lenArgOf(cmp.X); a != nil && (cmp.Op == token.LEQ || cmp.Op == token.EQL) {
-							if call, ok := an.Strip(a).(*ssa.Call); ok {
-								if f := an.StaticCallee(call); f != nil && f.Name() == "lookupdHTTPAddrs" {
-									return true
-								}
-							}
+					if cmp.If == nil || cmp.If.Block() != e.From {
+						continue
+					}
+					oc, ok := cmp.Oriented(func(v ssa.Value) bool {
+						a := lenArgOf(v)
+						if a == nil {
+							return false
 						}
+						call, ok := an.Strip(a).(*ssa.Call)
+						if !ok {
+							return false
+						}
+						f := an.StaticCallee(call)
+						return f != nil && f.Name() == "lookupdHTTPAddrs"
+					})
+					if !ok {
+						continue
+					}
+					if k, isC := an.ConstInt(oc.Y); isC && ((k == 0 && (oc.Op == token.LEQ || oc.Op == token.EQL)) || (k == 1 && oc.Op == token.LSS)) {
+						return true
 					}
 				}
 				return false
